@@ -70,7 +70,7 @@ def strategy(tier, shard, nshards):
 
 def budget(tier):
     if tier == "quick":
-        return {"examples": 170, "shards": 16, "guard_s": 900}
+        return {"examples": 150, "shards": 16, "guard_s": 900}
     return {"examples": 3600, "shards": 16, "guard_s": 7200}
 
 
@@ -292,13 +292,27 @@ def execute(trace) -> CaseResult:
         lv = G.leaves(nodes)
         detail = (f"'{rec['what']}' returned {sorted(x + 1 for x in rec['got'])}; evaluator expects "
                   f"{''.join('1' if e else '0' if e is False else '?' for e in exp)} (by position), wrong at {[i + 1 for i in bad]}")
-        if len(nodes) == 1 and len(lv) == 1 and nodes[0] is lv[0]:
-            lf = lv[0]
-            v("C14.eval." + G.KEYCLASS.get(lf[0], "other"), detail, leaf_sig(lf, bad))
+        single = len(nodes) == 1 and len(lv) == 1 and nodes[0] is lv[0]
+        if single and not rec["uid"]:
+            v("C14.eval." + G.KEYCLASS.get(lv[0][0], "other"), detail, leaf_sig(lv[0], bad))
             return
         if state["diag"] >= 3:
-            return  # this case has already reported diagnosed mismatches
+            return  # this case has already reported three diagnosed mismatches
         state["diag"] += 1
+        if rec["uid"]:
+            # is it the program, or the UID form of the command?
+            t = G.render(nodes, ctx)
+            r = await raw_search(t, False)
+            if r.closed:
+                await reconnect()
+            plain = positions(r, False, "SEARCH " + t.decode("latin-1"), "") if r.status == "OK" else None
+            ctx.flags = await read_flags()
+            if plain is not None and not mismatches(nodes, plain)[1]:
+                v("C14.law.uid", detail + f"; the same program as plain SEARCH returned {sorted(x + 1 for x in plain)}, which is right (uids={ctx.uids})", "")
+                return
+            if single:
+                v("C14.eval." + G.KEYCLASS.get(lv[0][0], "other"), detail, leaf_sig(lv[0], bad))
+                return
         # every distinct sub-program on its own (leaves first, then composites bottom-up, then the whole
         # program as plain SEARCH); afterwards re-read the flags and judge each against them
         subs = []
